@@ -17,7 +17,7 @@ ASSUMPTIONS = ["Reference Blowfish derived from pi digits reproduces the 16 publ
 
 def plan(tier):
     if tier == "quick":
-        return [("debug", 8, dict(n=260))]
+        return [("debug", 16, dict(n=500)), ("release", 2, dict(n=400))]
     return [("debug", 16, dict(n=11000)), ("release", 4, dict(n=6000))]
 
 
